@@ -101,34 +101,34 @@ def run_c10(pid, tier):
     scen = []; trees = []
     for i in range(n):
         entries = gen_tree(rng, depth=rng.randint(1, 4))
-        trees.append(entries); scen.append(tree_steps(entries) + [('R', [('c', 't')])])
+        trees.append(entries); scen.append(tree_steps(entries) + [('R', [('c', 't')]), ('Z',), ('R', [('c', 't')])])
     rs = run_keyed(scen)
     disagree = []; oracle_fail = []
     model_vs_impl(chk, rs, disagree, what=("fs", "out"))
     nt = nb = 0
     for entries, r in zip(trees, rs):
-        run = r["runs"][0]
-        chk.count(r["key"].encode(), any(k == "tmpl" for _, k, _ in entries))
-        if run["status"] != "ok":
-            oracle_fail.append((r["key"], "compile_templates failed on a tree of identifier-named files: %s" % run["status"], None)); continue
-        files = snap_files(run["after"]); out = run["out"].decode("utf8", "replace")
-        want = {}
-        for p, k, c in entries:
-            if k == "tmpl":
-                mods, fn = fn_path(p); want["/".join(["templates"] + mods + ["template_%s.rs" % fn])] = (mods, fn, c); nt += 1
-        got = {p.decode(): c for p, c in files.items() if re.search(r"/template_[^/]*\.rs$", p.decode())}
-        if set(got) != set(want):
-            oracle_fail.append((r["key"], "generated template files %s differ from the templates in the tree %s" % (sorted(got), sorted(want)), None)); continue
-        for p, k, c in entries:
-            if k == "broken":
-                nb += 1
-                full = r["base"].decode() + "/t/" + p
-                if ('cargo:warning=Template parse error in "%s":' % full) not in out:
-                    oracle_fail.append((r["key"], "broken template %s is not reported with a cargo:warning naming the file" % p, dict(stdout=out[-800:]))); break
-                mods, fn = fn_path(p)
-                modfile = "/".join(["templates"] + mods + ["mod.rs"]) if mods else "templates.rs"
-                if ("mod template_%s;" % fn).encode() in files.get(modfile.encode(), b""):
-                    oracle_fail.append((r["key"], "broken template %s still got a module declaration" % p, None)); break
+      for run in r["runs"][:2]:
+            chk.count(r["key"].encode(), any(k == "tmpl" for _, k, _ in entries))
+            if run["status"] != "ok":
+                oracle_fail.append((r["key"], "compile_templates failed on a tree of identifier-named files: %s" % run["status"], None)); continue
+            files = snap_files(run["after"]); out = run["out"].decode("utf8", "replace")
+            want = {}
+            for p, k, c in entries:
+                if k == "tmpl":
+                    mods, fn = fn_path(p); want["/".join(["templates"] + mods + ["template_%s.rs" % fn])] = (mods, fn, c); nt += 1
+            got = {p.decode(): c for p, c in files.items() if re.search(r"/template_[^/]*\.rs$", p.decode())}
+            if set(got) != set(want):
+                oracle_fail.append((r["key"], "generated template files %s differ from the templates in the tree %s" % (sorted(got), sorted(want)), None)); continue
+            for p, k, c in entries:
+                if k == "broken":
+                    nb += 1
+                    full = r["base"].decode() + "/t/" + p
+                    if ('cargo:warning=Template parse error in "%s":' % full) not in out:
+                        oracle_fail.append((r["key"], "broken template %s is not reported with a cargo:warning naming the file" % p, dict(stdout=out[-800:]))); break
+                    mods, fn = fn_path(p)
+                    modfile = "/".join(["templates"] + mods + ["mod.rs"]) if mods else "templates.rs"
+                    if ("mod template_%s;" % fn).encode() in files.get(modfile.encode(), b""):
+                        oracle_fail.append((r["key"], "broken template %s still got a module declaration" % p, None)); break
     # oracle: build a crate that include!s templates.rs and calls every function through its module path
     B = 25
     for s0 in range(0, len(scen), B):
@@ -318,8 +318,9 @@ def run_c17(pid, tier):
         steps = tree_steps(entries)
         # static directories
         sfiles = []
-        for d in ["st", "st/img", "st/img/deep", "assets", "assets/v1"]:
-            if rng.random() < 0.7:
+        # siblings whose path string extends another directory's path string (st / st-vendor / st2 / st.old) are not below it
+        for d in ["st", "st/img", "st/img/deep", "st-vendor", "st2", "st.old", "assets", "assets/v1", "assets_3rd"]:
+            if rng.random() < 0.6:
                 steps.append(('M', d))
                 for _ in range(rng.randint(0, 3)):
                     f = d + "/" + rng.choice(["a", "b", "logo", "x-1", "n.min"]) + rng.choice([".css", ".js", ".png", ".woff2", ""])
@@ -334,7 +335,7 @@ def run_c17(pid, tier):
         prog.append(('s',))
         dirs_present = sorted(set(s[1] for s in steps if s[0] == 'M' and not s[1].startswith("t")))
         ids = set()
-        for _ in range(rng.randint(1, 4)):
+        for _ in range(rng.randint(1, 7)):
             k = rng.choice("fgatS")
             if k == 'f' and sfiles:
                 f = rng.choice(sfiles)
@@ -393,7 +394,9 @@ def run_c18(pid, tier):
     g = Gen(rng, depth=2)
     scen = []; meta = []
     for i in range(n):
-        src = make_template(g, g.items(), rng.choice(["canon", "pert"]), ("super::wrap_html",))
+        # several use lines: their order in the output must be the order in the template, every time
+        uses = ["super::wrap_html"] + rng.sample(["crate::P", "std::fmt::Display", "std::collections::HashMap as Map", "std::cmp::*", "crate::models::{A, B}", "super::wrap_html as w2"], rng.randint(0, 5))
+        src = make_template(g, g.items(), rng.choice(["canon", "pert"]), tuple(uses))
         name = rng.choice(IDENTS) + rng.choice(SUFFIX)
         sib = [(rng.choice(IDENTS) + "%d" % k + rng.choice(SUFFIX), "@()\nS%d" % k) for k in range(rng.randint(1, 4))]
         # (a) alone (b) created after siblings (c) created before siblings (d) deep inside another tree, twice
@@ -406,11 +409,13 @@ def run_c18(pid, tier):
         p1 = [('s',)] + [('d', x, x.encode()) for x in names]
         p2 = [('s',)] + [('d', x, x.encode()) for x in sorted(names, reverse=True)]
         sa[-1] = ('R', [('c', 't')] + p1); sb[-1] = ('R', [('c', 't')] + p2)
-        scen += [sa, sb, sc, sd]; meta.append((name, src, sib, len(scen) - 4))
+        # (e) into an OUT_DIR that already holds a longer (then: a different, equally long) output under the same name
+        se = [('W', 't/' + name, src + "<p>a longer earlier version of this template</p>\n" * 3), ('R', [('c', 't')]), ('W', 't/' + name, src[:-1] + "#" if src else "#"), ('R', [('c', 't')]), ('W', 't/' + name, src), ('R', [('c', 't')])]
+        scen += [sa, sb, sc, sd, se]; meta.append((name, src, sib, len(scen) - 5))
     rs = run_keyed(scen)
     # the same scenarios again from another cwd, with another environment and locale
     env2 = dict(os.environ, LANG="tr_TR.UTF-8", LC_ALL="C", TZ="Pacific/Kiritimati", HOME="/nonexistent", CARGO_PKG_NAME="zzz", OUT_DIR="/nonexistent/out")
-    rs_env = run_scenarios_env([s for s in scen[::4]], env2, cwd="/")
+    rs_env = run_scenarios_env([s for s in scen[::5]], env2, cwd="/")
     disagree = []; oracle_fail = []
     model_vs_impl(chk, rs, disagree, what=("fs",))
     def tfile(r, runi, name):
@@ -420,12 +425,12 @@ def run_c18(pid, tier):
         return cand[0] if len(cand) == 1 else None
     for k, (name, src, sib, s0) in enumerate(meta):
         chk.count(scen[s0][0][2].encode() if isinstance(scen[s0][0][2], str) else scen[s0][0][2], True)
-        outs = [tfile(rs[s0], 0, name), tfile(rs[s0 + 1], 0, name), tfile(rs[s0 + 2], 0, name), tfile(rs[s0 + 3], 0, name), tfile(rs[s0 + 3], 1, name), tfile(rs_env[k], 0, name)]
+        outs = [tfile(rs[s0], 0, name), tfile(rs[s0 + 1], 0, name), tfile(rs[s0 + 2], 0, name), tfile(rs[s0 + 3], 0, name), tfile(rs[s0 + 3], 1, name), tfile(rs[s0 + 4], 2, name), tfile(rs_env[k], 0, name)]
         if any(o is None for o in outs) and not all(o is None for o in outs):
             oracle_fail.append((rs[s0 + 1]["key"], "the template was compiled in one surrounding but not in another", None)); continue
         if len(set(outs)) > 1:
             j = next(i for i in range(len(outs)) if outs[i] != outs[0])
-            oracle_fail.append((rs[s0 + min(j, 3)]["key"], "generated code for the same template bytes and name differs between surroundings (alone / among siblings / other location / repeated / other cwd+env)",
+            oracle_fail.append((rs[s0 + [0, 1, 2, 3, 3, 4, 0][j]]["key"], "generated code for the same template bytes and name differs between surroundings (alone / among siblings / other location / repeated / an OUT_DIR holding earlier output / other cwd+env)",
                                 dict(a=(outs[0] or b"").decode("utf8", "replace")[-500:], b=(outs[j] or b"").decode("utf8", "replace")[-500:]))); continue
         # module declarations: a set that depends only on the directory contents
         def decls(r):
@@ -437,7 +442,7 @@ def run_c18(pid, tier):
         if sl(rs[s0]) != sl(rs[s0 + 1]):
             oracle_fail.append((rs[s0 + 1]["key"], "the order of STATICS depends on the insertion order", dict(a=sl(rs[s0]).decode(), b=sl(rs[s0 + 1]).decode())))
     for s in scen[:1]: chk.sample(dict(steps=[str(x)[:100] for x in s]))
-    chk.cov["rule"] = ("%d generated templates, each compiled alone, among siblings created before / after it, deep inside another tree at another path into another OUT_DIR twice, and from another cwd with other environment variables and locale; "
+    chk.cov["rule"] = ("%d generated templates, each compiled alone, among siblings created before / after it, deep inside another tree at another path into another OUT_DIR twice, into an OUT_DIR that holds a longer and then a different earlier output under the same name, and from another cwd with other environment variables and locale; "
                        "template_*.rs compared byte for byte across surroundings and with the model (whose only inputs are the bytes and the name); mod declarations compared as a set; STATICS line for the same names in two insertion orders. distinct by template") % n
     return finish_build(chk, proof, info, disagree, oracle_fail, len(scen))
 
